@@ -238,6 +238,13 @@ def _oracle_canon(case):
     if I_in is None:
         return []                      # RDKit cannot read the input, or a map number occurs twice on a side: not a mapped reaction
     fails = []
+    # monitor of the theorems' premise [parsed]: the graphs handed to the canonicaliser have node id = atom_map > 0
+    gh = _raw_graphs(r)
+    if gh is not None:
+        for side, g in zip("GH", gh):
+            bad = [n for n, d in g.nodes(data=True) if not (isinstance(n, int) and n > 0 and d.get("atom_map") == n)]
+            if bad or any(u == v for u, v in g.edges()):
+                fails.append(_fail("monitor-parsed", "raw %s graph of %r: node id <> atom_map or <= 0 at %r / self-loop" % (side, r, bad[:5])))
     try:
         out = _canon(r, be).canonical_rsmi
     except Exception as e:
@@ -544,6 +551,8 @@ TRUSTED_BASE = [
     "harness encoders harness/gen/c01_enc.py; independent references harness/gen/c09_gen.py (plain RDKit reading + VF2 + Counter)",
 ]
 ASSUMPTIONS = [
+    "premise [parsed] of the canonicaliser theorems (node id = atom_map > 0, simple graphs) is what rsmi_to_graph(expand_aam(r)) delivers: "
+    "monitored on every canonicaliser case (clause monitor-parsed)",
     "reactions are 'reactants>>products' strings RDKit can read; a map number occurs at most once per side",
     "CanonRSMI with default wl_iterations / node_attrs, back-ends wl and nauty; AAMValidator.smiles_check with ignore_aromaticity=False",
 ]
